@@ -964,6 +964,34 @@ w('C16', 'opchild export: last powers of zero are skipped', 'C16.R2',
 
 w('C14', 'ChangeExecutor: the zeroing walk stops after two validators', 'C14.R3',
   (EC, ECWALK, '\tn := 0\n\terr := k.Validators.Walk(ctx, nil, func(key []byte, validator types.Validator) (stop bool, err error) {\n\t\tvalidator.ConsPower = 0\n\t\terr = k.Validators.Set(ctx, key, validator)\n\t\tn++\n\t\treturn n == 2, err\n\t})\n\tif err != nil {\n\t\treturn err\n\t}\n'))
+
+VSC='x/opchild/keeper/val_state_change.go'
+SNLB='\tnoLongerBonded, err := sortNoLongerBonded(last, k.validatorAddressCodec)\n\tif err != nil {\n\t\treturn nil, err\n\t}\n'
+INLFILL='\tnoLongerBonded := make([][]byte, len(last))\n\tindex := 0\n\tfor valAddrStr := range last {\n\t\tvalAddrBytes, err := k.validatorAddressCodec.StringToBytes(valAddrStr)\n\t\tif err != nil {\n\t\t\treturn nil, err\n\t\t}\n\t\tnoLongerBonded[index] = valAddrBytes\n\t\tindex++\n\t}\n'
+INLSORT='\tsort.SliceStable(noLongerBonded, func(i, j int) bool {\n\t\treturn bytes.Compare(noLongerBonded[i], noLongerBonded[j]) == -1\n\t})\n'
+w('C13', 'BENIGN: no-longer-bonded list filled and sorted inline', '', (VSC, SNLB, INLFILL+INLSORT))
+w('C13', 'no-longer-bonded list filled inline and never sorted (map order reaches consensus)', 'C13.R4', (VSC, SNLB, INLFILL))
+w('C18', 'no-longer-bonded list filled inline and never sorted (map order reaches consensus)', 'C18.R1', (VSC, SNLB, INLFILL))
+w('C13', 'inline sort applied to a different slice than the one removed from', 'C13.R4', (VSC, SNLB, INLFILL+'\tother := append([][]byte(nil), noLongerBonded...)\n'+INLSORT.replace('noLongerBonded','other')))
+
+# --- mutants in refactored shape: parameter objects, result objects, reordered parameters of the private deposit helpers
+B18P4=patch_edits(os.path.join(HERE,'..','benign','B18','p4.diff'))
+B15P6=patch_edits(os.path.join(HERE,'..','benign','B15','p6.diff'))
+w('C08', 'parameter-object form: one more unit minted than deposited', 'C08.R1', *B18P4,
+  (CM, 'tokenDeposit{toAddr: toAddr, coins: sdk.NewCoins(coin)}', 'tokenDeposit{toAddr: toAddr, coins: sdk.NewCoins(sdk.NewCoin(coin.Denom, coin.Amount.AddRaw(1)))}'))
+w('C07', 'reordered hook parameters: hook runs with a fixed gas limit instead of Params.HookMaxGas', 'C07.R7', *B18P4,
+  (CM, 'ms.handleBridgeHook(sdkCtx, params.HookMaxGas, req.Data)', 'ms.handleBridgeHook(sdkCtx, params.HookMaxGas+1_000_000, req.Data)'))
+DEP='x/opchild/keeper/deposit.go'
+w('C07', 'success reported before the commit (a panicking commit reports success)', 'C07.R2',
+  (DEP, '\tcommit()\n\tsuccess = true\n\n\treturn\n}\n\n// safeDepositToken', '\tsuccess = true\n\tcommit()\n\n\treturn\n}\n\n// safeDepositToken'))
+w('C07', 'result-object form: success reported before the commit', 'C07.R2', *B15P6,
+  (DEP, '\tcommit()\n\tres.success = true\n', '\tres.success = true\n\tcommit()\n'))
+w('C07', 'result-object form: failed send still reports success', 'C07.R2', *B15P6,
+  (DEP, '\t\tres.reason = fmt.Sprintf("failed to send coins: %s", err)\n\t\treturn\n', '\t\tres.reason = fmt.Sprintf("failed to send coins: %s", err)\n\t\tres.success = true\n\t\treturn\n'))
+w('C07', 'result-object form: handler ignores the failure flag', 'C07.R6', *B15P6,
+  (CM, 'depositSuccess, reason = deposit.success, deposit.reason', 'depositSuccess, reason = true, deposit.reason'))
+w('C07', 'reordered hook parameters: zero max gas no longer short-circuits', 'C07.R4', *B15P6,
+  (DEP, '\tif hookMaxGas == 0 {\n\t\treturn false, "hook max gas is zero"\n\t}\n', ''))
 #@@MORE@@
 for p,l in W.items():
     json.dump(l, open(os.path.join(HERE,p+'.json'),'w'), indent=1)
